@@ -67,8 +67,25 @@ Section KK.
     let raw := zip_combine picked b2 in
     sort_bins (map (fun x => (fst x, if keep then sort_names (snd x) else snd x)) raw).
 
+  (** lexicographic order on tuples of names (Python's tuple comparison) *)
+  Fixpoint lex_le (a b : list Z) : bool :=
+    match a, b with
+    | [], _ => true
+    | _ :: _, [] => false
+    | x :: s, y :: t => if x <? y then true else if y <? x then false else lex_le s t
+    end.
+  Fixpoint lex_insert (x : list Z) (l : list (list Z)) : list (list Z) :=
+    match l with
+    | [] => [x]
+    | y :: t => if lex_le x y then x :: y :: t else y :: lex_insert x t
+    end.
+  Definition lex_sort (l : list (list Z)) : list (list Z) := fold_right lex_insert [] l.
+
+  (** de-duplication key: tuple(sorted(map(tuple, lists))) for the contents manager (after
+      the repair "fix: all_combinations yielded the same combination twice ..."),
+      tuple(sorted sums) for the sums manager *)
   Definition combo_key (b : bins A) : list (list Z) :=
-    if keep then map (fun x => map nameof (snd x)) b else map (fun x => [fst x]) b.
+    if keep then lex_sort (map (fun x => map nameof (snd x)) b) else map (fun x => [fst x]) b.
 
   Fixpoint list_eqb {T} (eqb : T -> T -> bool) (l1 l2 : list T) : bool :=
     match l1, l2 with
